@@ -70,7 +70,7 @@ fn sanitize(s: &str) -> String {
 
 /// result of offering a byte string to the real exact decoder of type T
 enum Dec {
-    Ok { re: Vec<u8>, dbg: String },
+    Ok { re: Vec<u8>, dbg: String, dig: String },
     Err(String),
     Panic,
 }
@@ -80,11 +80,21 @@ trait Msg: Sized {
     fn de(b: &[u8]) -> wincode::ReadResult<Self>;
     fn ser(&self) -> Vec<u8>;
     fn dbg(&self) -> String;
+    /// a few decoded field values (compared with the model's decoding)
+    fn digest(&self) -> String {
+        String::new()
+    }
 }
 
 macro_rules! msg {
     ($ty:ty, $t:expr) => {
+        msg!($ty, $t, |_m: &$ty| String::new());
+    };
+    ($ty:ty, $t:expr, $dig:expr) => {
         impl Msg for $ty {
+            fn digest(&self) -> String {
+                ($dig)(self)
+            }
             const T: &'static str = $t;
             fn de(b: &[u8]) -> wincode::ReadResult<Self> {
                 alpenglow::network::deserialize::<$ty>(b)
@@ -98,17 +108,20 @@ macro_rules! msg {
         }
     };
 }
-msg!(ConsensusMessage, "cm");
+msg!(ConsensusMessage, "cm", |m: &ConsensusMessage| match m {
+    ConsensusMessage::Vote(v) => format!(" v {} {}", v.slot().inner(), v.signer().inner()),
+    ConsensusMessage::Cert(c) => format!(" c {} {}", c.slot().inner(), c.stake().inner()),
+});
 msg!(Transaction, "tx");
 msg!(RepairRequest, "rq");
 msg!(RepairResponse, "rs");
-msg!(Shred, "sh");
+msg!(Shred, "sh", |m: &Shred| format!(" i {}", m.payload().index_in_slot()));
 
 fn offer<M: Msg>(b: &[u8]) -> Dec {
-    match catch(|| M::de(b).map(|m| (m.ser(), m.dbg()))) {
+    match catch(|| M::de(b).map(|m| (m.ser(), m.dbg(), m.digest()))) {
         Err(_) => Dec::Panic,
         Ok(Err(e)) => Dec::Err(e.to_string()),
-        Ok(Ok((re, dbg))) => Dec::Ok { re, dbg },
+        Ok(Ok((re, dbg, dig))) => Dec::Ok { re, dbg, dig },
     }
 }
 
@@ -128,7 +141,7 @@ impl Cx {
         let t = M::T;
         let crypto = matches!(&d, Dec::Err(e) if e.contains("invalid BLS"));
         let out = match &d {
-            Dec::Ok { re, .. } => format!("ok {} {}", re.len(), fnv_bytes(re)),
+            Dec::Ok { re, dig, .. } => format!("ok {} {}{dig}", re.len(), fnv_bytes(re)),
             Dec::Err(_) => "err".to_string(),
             Dec::Panic => "panic".to_string(),
         };
@@ -140,12 +153,12 @@ impl Cx {
         self.rec.count(&format!("{t}:{}", out.split(' ').next().unwrap_or("")));
         self.class = fnv(self.class, &format!("{t}{why}{}", out.split(' ').next().unwrap_or("")));
         self.rec.oracle(!matches!(d, Dec::Panic), "c19-decoder-panic", || format!("decoding {t} {} panicked ({why})", hex(b)));
-        if let Dec::Ok { re, dbg } = &d {
+        if let Dec::Ok { re, dbg, .. } = &d {
             self.oks += 1;
             // re-encoding a successfully decoded byte string is stable
             let h = hex(b);
             match offer::<M>(re) {
-                Dec::Ok { re: re2, dbg: dbg2 } => {
+                Dec::Ok { re: re2, dbg: dbg2, .. } => {
                     self.rec.oracle(&re2 == re, "c19-reencoding-unstable", || format!("{t} {h}: re-encoding of the decoded message is not a fixed point ({why})"));
                     self.rec.oracle(&dbg2 == dbg, "c19-reencoding-changes-message", || format!("{t} {h}: decode(encode(m)) != m for the decoded m ({why})"));
                 }
@@ -165,7 +178,7 @@ impl Cx {
         *e = (*e).max(b.len());
         self.rec.oracle(b.len() <= MTU_BYTES, "c19-exceeds-datagram", || format!("{t} ({what}) encodes to {} bytes > {MTU_BYTES}: {}", b.len(), &m.dbg()[..m.dbg().len().min(300)]));
         match self.feed::<M>(&b, what) {
-            Dec::Ok { re, dbg } => {
+            Dec::Ok { re, dbg, .. } => {
                 self.rec.oracle(re == b, "c19-roundtrip-bytes", || format!("{t} ({what}) {}: decode then encode gives other bytes", hex(&b)));
                 self.rec.oracle(dbg == m.dbg(), "c19-roundtrip-message", || format!("{t} ({what}) {}: decoded message differs from the encoded one", hex(&b)));
             }
